@@ -119,6 +119,15 @@ func typeStr(t types.Type) string {
 	if t == nil {
 		return "?"
 	}
+	if tp, ok := t.(*types.TypeParam); ok {
+		// generic bodies: a type parameter is named by its constraint, so that a callee's own parameter and the
+		// caller's argument for it render alike
+		c := types.TypeString(tp.Constraint(), func(p *types.Package) string { return "" })
+		if i := strings.LastIndex(c, "."); i >= 0 {
+			c = c[i+1:]
+		}
+		return "<" + c + ">"
+	}
 	if b, ok := t.(*types.Basic); ok {
 		switch b.Kind() { // aliases byte/rune print by their canonical names
 		case types.Uint8:
@@ -366,6 +375,14 @@ func nilness(v *Val) int {
 		if v.Name == "fmt.Errorf" || v.Name == "errors.New" {
 			return +1
 		}
+	case "choice":
+		n := nilness(v.Args[0])
+		for _, a := range v.Args[1:] {
+			if nilness(a) != n {
+				return 0
+			}
+		}
+		return n
 	}
 	return 0
 }
